@@ -58,7 +58,7 @@ def tmpdir():
 # fingerprint values: distinct per pixel and per row, not representable in float32
 
 
-def pixel_data(n: int, units: str = 'default', dtype='float64') -> sc.DataArray:
+def pixel_data(n: int, units: str = 'default', dtype='float64', index_dtype='int64') -> sc.DataArray:
     i = np.arange(n, dtype='float64')
     u = {
         'default': ('1/angstrom', '1/angstrom', '1/angstrom', 'meV', 'count'),
@@ -88,9 +88,9 @@ def pixel_data(n: int, units: str = 'default', dtype='float64') -> sc.DataArray:
     da = sc.DataArray(
         sc.array(dims=['obs'], values=values, variances=variances, unit=sig_unit),
         coords={
-            'idet': sc.array(dims=['obs'], values=(np.arange(n) // 3 + 1), unit=None),
-            'irun': sc.array(dims=['obs'], values=(np.arange(n) // 2), unit=None),
-            'ien': sc.array(dims=['obs'], values=(np.arange(n) * 2 // 10), unit=None),
+            'idet': sc.array(dims=['obs'], values=(np.arange(n) // 3 + 1).astype(index_dtype), unit=None),
+            'irun': sc.array(dims=['obs'], values=(np.arange(n) // 2).astype(index_dtype), unit=None),
+            'ien': sc.array(dims=['obs'], values=(np.arange(n) * 2 // 10).astype(index_dtype), unit=None),
             'u1': sc.array(dims=['obs'], values=col(1, 1.0), unit=u[0]),
             'u2': sc.array(dims=['obs'], values=col(2, 1e-3), unit=u[1]),
             'u3': sc.array(dims=['obs'], values=col(3, 1e3), unit=u[2]),
